@@ -1,6 +1,199 @@
 import Srsim.Spec.Proto
-/-! placeholder, replaced by the full theorem file once its proofs are in -/
-namespace Proto
-theorem C11_monitor_rejects_after_termination :
-    step (α := Rat) { stage := 13 } (.phase1End) = none := by decide
-end Proto
+import Srsim.Proofs.NumRat
+import Srsim.Proofs.SimFrame
+/-!
+# C11 — the engine performs what the script decided
+-/
+namespace Sim
+variable {α : Type} [Num α]
+
+/-- what `executeAction` does for a living character, in terms of the script's answers: the script
+is asked exactly once more; the events added contain exactly one kind of action start, owned by
+the character: a skill iff the script said skill and the team has its cost, otherwise an attack. -/
+theorem C11_action (cfg : Cfg) (s : S α) (id : Int) (ins : Bool) (hc : isCharId cfg id = true) (ha : isAlive s id = true)
+    (s' : S α) (h : executeAction cfg s id ins = some s') :
+    s'.calls id = s.calls id + 1 ∧
+    ∃ new, s'.evs = new ++ s.evs ∧
+      (.actionStart id (if (cfg.next id (s.calls id)).typ = 1 ∧ s.sp ≥ (cfg.kind id).spNeed then 2 else 1) ins) ∈ new ∧
+      ∀ o ty i, Ev.actionStart o ty i ∈ new →
+        o = id ∧ i = ins ∧ ty = (if (cfg.next id (s.calls id)).typ = 1 ∧ s.sp ≥ (cfg.kind id).spNeed then 2 else 1) := by
+  unfold executeAction at h
+  rw [if_neg (by simp [ha]), if_pos hc] at h
+  dsimp only at h
+  split at h
+  · cases h
+  · next pt hev =>
+    cases h
+    have hty : ∀ x y : Nat, (if ((cfg.next id (s.calls id)).typ == 1 && decide (s.sp ≥ (cfg.kind id).spNeed)) = true then x else y) =
+        (if (cfg.next id (s.calls id)).typ = 1 ∧ s.sp ≥ (cfg.kind id).spNeed then x else y) := by
+      intro x y
+      by_cases hP : (cfg.next id (s.calls id)).typ = 1 ∧ s.sp ≥ (cfg.kind id).spNeed
+      · rw [if_pos hP, if_pos (by simp [hP.1, hP.2])]
+      · rw [if_neg hP, if_neg (by simpa using hP)]
+    rw [← hty]
+    obtain ⟨hcalls, new, hevs, hmem, hall⟩ := action_shape cfg
+      { s with calls := fun i => if i == id then s.calls id + 1 else s.calls i } id ins
+      (if ((cfg.next id (s.calls id)).typ == 1 && decide (s.sp ≥ (cfg.kind id).spNeed)) = true then -(cfg.kind id).spNeed else (cfg.kind id).spAdd)
+      (if ((cfg.next id (s.calls id)).typ == 1 && decide (s.sp ≥ (cfg.kind id).spNeed)) = true then 2 else 1)
+      (if ((cfg.next id (s.calls id)).typ == 1 && decide (s.sp ≥ (cfg.kind id).spNeed)) = true then cfg.skillP id else cfg.attackP id) pt
+    refine ⟨?_, new, hevs, hmem, hall⟩
+    rw [hcalls]
+    simp
+
+/-- **Skill points**: right after the decision the skill's cost is deducted, or the attack's
+points credited (within [0,5]). -/
+theorem C11_sp (cfg : Cfg) (s : S α) (id : Int) (ins : Bool) (hc : isCharId cfg id = true) (ha : isAlive s id = true)
+    (pt : Int) :
+    let d0 := cfg.next id (s.calls id)
+    let k := cfg.kind id
+    let useSkill := d0.typ == 1 && decide (s.sp ≥ k.spNeed)
+    let d := if d0.typ == 1 && !decide (s.sp ≥ k.spNeed) then cfg.dflt id else d0
+    evaluate cfg { s with calls := fun i => if i == id then s.calls id + 1 else s.calls i } id d.ev (if useSkill then k.skillT else k.attackT) = some pt →
+    (useSkill = true → 0 ≤ s.sp - k.spNeed) ∧
+    (modifySP s (if useSkill then -k.spNeed else k.spAdd)).sp = clampSP (s.sp + (if useSkill then -k.spNeed else k.spAdd)) := by
+  intro d0 k useSkill d _
+  refine ⟨fun hu => ?_, ?_⟩
+  · have h2 : s.sp ≥ k.spNeed := by
+      simp only [useSkill, Bool.and_eq_true, decide_eq_true_eq] at hu
+      exact hu.2
+    omega
+  · generalize (if useSkill = true then -k.spNeed else k.spAdd) = amt
+    unfold modifySP
+    split
+    · next h => exact (eq_of_beq h).symm
+    · rfl
+
+/-- **Named target**: a named unit is accepted only if it exists, is alive and is on the right side. -/
+theorem C11_named_target (cfg : Cfg) (s : S α) (src ev : Int) (tt : Nat) (pt : Int)
+    (hev : ev ≠ 100 ∧ ev ≠ 101 ∧ ev ≠ 102) (h : evaluate cfg s src ev tt = some pt) :
+    pt = ev ∧ isValidId cfg ev = true ∧ isAlive s ev = true ∧
+    (tt = 2 → isCharId cfg ev = true) ∧ (tt = 3 → isCharId cfg ev = false) ∧ (tt = 1 → ev = src) := by
+  obtain ⟨h1, h2, h3⟩ := hev
+  unfold evaluate at h
+  have h0 : (ev == 100 || ev == 101 || ev == 102) = false := by simp [h1, h2, h3]
+  rw [if_neg (by simp [h0])] at h
+  split_ifs at h with a b c d e f g i <;> simp_all
+
+theorem lowestBy_mem (f : Int → α) (b : Int) (m : α) (cs : List Int) : lowestBy f b m cs ∈ b :: cs := by
+  induction cs generalizing b m with
+  | nil => simp [lowestBy]
+  | cons c cs ih =>
+    unfold lowestBy
+    split
+    · exact List.mem_cons_of_mem _ (ih c (f c))
+    · rcases List.mem_cons.1 (ih b m) with h | h
+      · rw [h]; simp
+      · simp [h]
+
+theorem lowestBy_min (f : Int → Rat) (b : Int) (m : Rat) (cs : List Int) (hm : m = f b) :
+    lowestBy f b m cs ∈ b :: cs ∧ ∀ x ∈ b :: cs, f (lowestBy f b m cs) ≤ f x := by
+  refine ⟨lowestBy_mem f b m cs, ?_⟩
+  induction cs generalizing b m with
+  | nil => simp [lowestBy]
+  | cons c cs ih =>
+    unfold lowestBy
+    split
+    · next hlt =>
+      have hlt' : f c < f b := by rw [← hm]; exact hlt
+      have := ih c (f c) rfl
+      intro x hx
+      rcases List.mem_cons.1 hx with rfl | hx
+      · have := this c (by simp); linarith
+      · exact this x hx
+    · next hlt =>
+      have hlt' : ¬ f c < f b := by rw [← hm]; exact hlt
+      have := ih b m hm
+      intro x hx
+      rcases List.mem_cons.1 hx with rfl | hx
+      · exact this _ (by simp)
+      rcases List.mem_cons.1 hx with rfl | hx
+      · have := this b (by simp); linarith
+      · exact this x (by simp [hx])
+
+/-- **Rule targets are candidates of the right side**: first / lowest HP / lowest ratio return a
+member of the living list of the side the ability targets. -/
+theorem C11_rule_target_side (cfg : Cfg) (s : S α) (src ev : Int) (tt : Nat) (pt : Int)
+    (hev : ev = 100 ∨ ev = 101 ∨ ev = 102) (h : evaluate cfg s src ev tt = some pt) :
+    (tt = 2 → pt ∈ s.chars) ∧ (tt = 3 → pt ∈ s.enemies) ∧ (tt = 1 → pt = src) := by
+  unfold evaluate at h
+  have hr : (ev == 100 || ev == 101 || ev == 102) = true := by
+    rcases hev with h | h | h <;> simp [h]
+  rw [if_pos hr] at h
+  split at h
+  · cases h
+  · next htt =>
+    have hm : pt ∈ (if tt == 2 then s.chars else if tt == 3 then s.enemies else [src]) := by
+      generalize (if tt == 2 then s.chars else if tt == 3 then s.enemies else [src]) = L at h
+      split at h
+      · cases h
+      · cases h; simp
+      · split at h
+        · cases h; simp
+        · split at h
+          · cases h; exact lowestBy_mem _ _ _ _
+          · cases h
+            have := lowestBy_mem (ratioOf s) ‹Int› (ratioOf s ‹Int›) (‹Int› :: ‹List Int›)
+            simpa using this
+    refine ⟨fun h2 => ?_, fun h3 => ?_, fun h1 => ?_⟩
+    · subst h2; simpa using hm
+    · subst h3; simpa using hm
+    · subst h1; simpa using hm
+
+/-- **First** is the first living unit of the side. -/
+theorem C11_first (cfg : Cfg) (s : S α) (src : Int) (c : Int) (cs : List Int) (h : s.enemies = c :: cs) :
+    evaluate cfg s src 100 3 = some c := by
+  unfold evaluate
+  cases cs <;> simp [h]
+
+/-- **Lowest** (over `ℚ`): the unit returned by `lowestBy` minimises the measure over the
+candidates, and is the earliest such candidate. -/
+theorem C11_lowest (f : Int → Rat) (c : Int) (cs : List Int) :
+    lowestBy f c (f c) cs ∈ c :: cs ∧ ∀ x ∈ c :: cs, f (lowestBy f c (f c) cs) ≤ f x := by
+  exact lowestBy_min f c (f c) cs rfl
+
+/-- (Specialised to `ℚ`: clamping the new energy `0` into `[0, maxEnergy]` needs the order axioms.)
+**Ultimates**: after the script's answer to an ult check, a new ult task is queued only for a
+character the script named whose energy was full, and that character's energy is then zero. -/
+theorem C11_ult_gate (cfg : Cfg) (s : S Rat) (a : UltAsk) (u : U Rat)
+    (hasks : cfg.ults s.ultCalls = [a]) (hc : isCharId cfg a.target = true) (hu : unitOf s a.target = some u)
+    (hid : u.id = a.target) (herr : s.err = none) (hmax : (0 : Rat) ≤ u.maxEnergy) :
+    (Num.eqb (u.energy / u.maxEnergy) 1 = false → (ultCheck cfg s).queue = s.queue ∧ (ultCheck cfg s).units = s.units) ∧
+    (Num.eqb (u.energy / u.maxEnergy) 1 = true →
+      (ultCheck cfg s).queue = s.queue ++ [⟨a.target, 500, s.seq, true, .ult a⟩] ∧
+      (unitOf (ultCheck cfg s) a.target).map (·.energy) = some 0) := by
+  have hu1 : unitOf { s with ultCalls := s.ultCalls + 1 } a.target = some u := hu
+  have key : ultCheck cfg s = if Num.eqb (u.energy / u.maxEnergy) 1 = true
+      then setEnergy (enqueue { s with ultCalls := s.ultCalls + 1 } a.target 500 true (.ult a)) a.target 0
+      else { s with ultCalls := s.ultCalls + 1 } := by
+    unfold ultCheck
+    rw [hasks]
+    simp only [List.foldl_cons, List.foldl_nil]
+    split
+    · next h => simp [herr] at h
+    split
+    · next h => simp [hc] at h
+    split
+    · next h => rw [hu1] at h; cases h
+    · next u' h =>
+      rw [hu1] at h; cases h
+      rfl
+  rw [key]
+  constructor
+  · intro hf
+    rw [if_neg (by simp [hf])]
+    exact ⟨rfl, rfl⟩
+  · intro ht
+    rw [if_pos ht]
+    have hu2 : unitOf (enqueue { s with ultCalls := s.ultCalls + 1 } a.target 500 true (.ult a)) a.target = some u := hu
+    have hq := (setEnergy_chars (enqueue { s with ultCalls := s.ultCalls + 1 } a.target 500 true (.ult a)) a.target 0).2.2.2
+    refine ⟨by rw [hq]; rfl, ?_⟩
+    have hnl : ¬ u.maxEnergy < 0 := not_lt.mpr hmax
+    unfold setEnergy
+    rw [hu2]
+    simp only [Num.zero_rat, gt_iff_lt, hnl, ite_false, lt_self_iff_false]
+    split
+    · rw [unitOf_setUnit_eq _ u _ a.target hu2 (by exact hid)]; rfl
+    · rw [unitOf_emit, unitOf_setUnit_eq _ u _ a.target hu2 (by exact hid)]; rfl
+
+
+end Sim
